@@ -230,15 +230,17 @@ def rule_wire_chain(ctx):
         flow = Flow(fn, extra_pass=_try_pass)
         key = "link:%s" % cf
         ok = True
-        gcd = [(fn, flow, None, bi, t) for bi, t in _calls_to(fn, "driver::generate_c_driver")]
-        gio = _calls_to(fn, "driver::generate_io_runtime")
+        gcd_key = fx.fn("driver::generate_c_driver")["key"]       # possibly moved to a sub-module of the driver crate
+        gio_key = fx.fn("driver::generate_io_runtime")["key"]
+        gcd = [(fn, flow, None, bi, t) for bi, t in _calls_to(fn, gcd_key)]
+        gio = _calls_to(fn, gio_key)
         for bi, ht in fn.calls():
             hk = ht.get("resolved_key") or (ht.get("callee_key") if not ht.get("callee_trait") else None)
-            if hk in fx.fns and fx.fns[hk]["crate"] == "driver" and hk not in (D + pf, "driver::generate_c_driver", "driver::generate_io_runtime"):
+            if hk in fx.fns and fx.fns[hk]["crate"] == "driver" and hk not in (D + pf, gcd_key, gio_key):
                 hfn = Fn(fx.fns[hk])
                 hflow = Flow(hfn, extra_pass=_try_pass)
-                gcd += [(hfn, hflow, ht, b2, t2) for b2, t2 in _calls_to(hfn, "driver::generate_c_driver")]
-                gio = gio + _calls_to(hfn, "driver::generate_io_runtime")
+                gcd += [(hfn, hflow, ht, b2, t2) for b2, t2 in _calls_to(hfn, gcd_key)]
+                gio = gio + _calls_to(hfn, gio_key)
         if not gcd or not gio or not _calls_to(fn, D + pf):
             res.violate(key + "@must-call", "%s must call %s, generate_c_driver and generate_io_runtime" % (cf, pf), fn.file, fn.line)
             ok = False
